@@ -458,15 +458,26 @@ contract("HpcSubmitter.run", file=F,
              "forall(k, range(len(blocked_jobs)), forall(m, range(len(submitted_jobs)), blocked_jobs[k].name != submitted_jobs[m].name))",
              "MARKER(self) in ghost.fs",
              "self._cluster == old(self._cluster) and self._config == old(self._config) and self._max_nodes == old(self._max_nodes)",
+             "CFG().is_canceled == old(CFG().is_canceled) and implies(old(CFG().is_canceled), ghost.runs == old(ghost.runs))",
          ]}},
          ensures=[
              "len(JS().hpc_job_ids) <= self._max_nodes",                        # C06
              "self._batch_index >= old(self._batch_index) and ghost.runs - old(ghost.runs) == self._batch_index - old(self._batch_index)",   # C01
              "MARKER(self) not in ghost.fs",
+             # C14: cancel is final - a canceled submission never hands another batch to the scheduler
+             "implies(old(CFG().is_canceled), ghost.runs == old(ghost.runs))",
          ],
          raises={
-             "Exception": {"ensures": []},
+             # C11: a failing status query happens before anything is handed over or written; the next round starts from the same state
+             "ExecutionError": {"ensures": ["ghost.runs == old(ghost.runs) and ghost.file_writes == old(ghost.file_writes) and ghost.fs == old(ghost.fs)",
+                                            "self._batch_index == old(self._batch_index)"], "frame": False},
+             # C11: once a round handed a batch over, every exception leaves the marker in place (later rounds refuse)
+             "Exception": {"ensures": ["ghost.runs == old(ghost.runs) or MARKER(self) in ghost.fs or persisted()"], "frame": False},
          },
+         crash_inv=[
+             # C11 (kill points): a batch handed to the scheduler and not yet persisted implies the marker file exists
+             "ghost.runs == old(ghost.runs) or MARKER(self) in ghost.fs or persisted()",
+         ],
          modifies=["self._batch_index", "ghost.runs", "ghost.fs", "ghost.cluster_lock", "ghost.lock_marker_left", "ghost.collected", "ghost.collected_failed",
                    "ghost.files", "ghost.vfiles", "ghost.file_writes", "ghost.last_status", "ghost.sbatch_n",
                    "Job.state", "Job.blocked_by", "JobStatus.hpc_job_ids", "JobStatus.batch_index", "JobStatus.version",
